@@ -248,6 +248,10 @@ def whole_st(draw, lmax):
     for s in shells:  # the property's random domain: 0.2..5 when an f shell is present
         if s["l"] >= 3 or max(x["l"] for x in shells) >= 3:
             s["exps"] = [min(5.0, max(0.2, e)) for e in s["exps"]]
+            # clamping can make two exponents coincide: the cancellation rule of the domain is applied again
+            s["coeffs"], rep = gen.repair_cancellation(s["l"], s["exps"], s["coeffs"])
+            if rep:
+                s["repaired"] = True
     types = [draw(st.sampled_from(gen.TYPES)) for _ in shells]
     for s, t in zip(shells, types):
         s["type"] = t
